@@ -53,6 +53,9 @@ type fakeTC struct {
 	mu         sync.Mutex
 	registered []string
 	gen        []string
+	genCalls   int          // GenerateHostname calls so far
+	genFailed  int
+	failGen    map[int]bool // calls (1-based) that fail
 	published  []string
 	removed    []string
 }
@@ -66,6 +69,11 @@ func (f *fakeTC) RegisteredHostnames(ctx context.Context, _ *protocol.Registered
 func (f *fakeTC) GenerateHostname(ctx context.Context, _ *protocol.GenerateHostnameRequest) (*protocol.GenerateHostnameResponse, error) {
 	f.mu.Lock()
 	defer f.mu.Unlock()
+	f.genCalls++
+	if f.failGen[f.genCalls] {
+		f.genFailed++
+		return nil, errors.New("verif: gateway unavailable")
+	}
 	name := fmt.Sprintf("g%d", len(f.gen)+1)
 	f.gen = append(f.gen, name)
 	return &protocol.GenerateHostnameResponse{Hostname: name}, nil
@@ -120,8 +128,9 @@ type tunKind struct {
 	Hn string
 }
 type syncCase struct {
-	Tun []tunKind
-	Reg []string
+	Tun  []tunKind
+	Reg  []string
+	Fail []int // GenerateHostname calls that fail
 }
 
 func runSync(dir string) {
@@ -142,6 +151,10 @@ func runSync(dir string) {
 		c.VerifResetTunnels(tunnels)
 		c.VerifAddConnection(&protocol.Node{Id: 1, Address: "gw1.test:443"})
 		f.gen, f.published = nil, nil
+		f.genCalls, f.genFailed, f.failGen = 0, 0, map[int]bool{}
+		for _, k := range cs.Fail {
+			f.failGen[k] = true
+		}
 		reg := append([]string{}, cs.Reg...)
 		verifkit.Rand(int64(i)).Shuffle(len(reg), func(a, b int) { reg[a], reg[b] = reg[b], reg[a] })
 		f.registered = reg
@@ -159,7 +172,8 @@ func runSync(dir string) {
 		if gen == nil {
 			gen = []string{}
 		}
-		verifkit.Answer(i, map[string]any{"out": out, "gen": gen, "same": same, "panic": p, "regorder": reg})
+		verifkit.Answer(i, map[string]any{"out": out, "gen": gen, "nfail": f.genFailed, "same": same, "panic": p, "regorder": reg})
+		f.failGen = nil
 	})
 }
 
@@ -484,7 +498,7 @@ func runConn(dir string) {
 	verifkit.EachCase(func(i int, raw json.RawMessage) {
 		sc := verifkit.Decode[connScenario](raw)
 		path := filepath.Join(dir, fmt.Sprintf("conn-%d.yaml", i))
-		defer os.Remove(path)
+		defer os.RemoveAll(path)
 		list := func(m map[string]string) []client.Tunnel {
 			out := []client.Tunnel{}
 			for _, h := range hosts {
@@ -593,6 +607,13 @@ func runConn(dir string) {
 			var fn func() any
 			switch s.Kind {
 			case "rebuild":
+				fn = func() any { c.RebuildTunnels(list(s.New)); return nil }
+			case "rebuild-nosave":
+				// the configuration file cannot be saved (its place is taken by a non-empty directory): the change still applies
+				os.Remove(path)
+				if err := os.MkdirAll(filepath.Join(path, "occupied"), 0o755); err != nil {
+					die(3, "blocking the configuration file: %v", err)
+				}
 				fn = func() any { c.RebuildTunnels(list(s.New)); return nil }
 			case "reload":
 				// the user edited the file, then SIGHUP / the reload endpoint
